@@ -102,11 +102,6 @@ Proof.
   apply andb_true_iff. split; apply forallb_forall; intros; reflexivity.
 Qed.
 
-Lemma e3_same_kind_match : forall a b,
-  match a, b with KCreate, KCreate | KRevert, KRevert | KSaveMeta, KSaveMeta | KDelMeta, KDelMeta => true | _, _ => false end
-  = same_kind a b.
-Proof. destruct a, b; reflexivity. Qed.
-
 (* ---- run / reachable ------------------------------------------------------------------------------------ *)
 Lemma e3_run_app : forall a1 a2 s, run s (a1 ++ a2) = match run s a1 with Some s' => run s' a2 | None => None end.
 Proof.
